@@ -76,6 +76,7 @@ Forms == {
   [n |-> "assoc_section", slots |-> 0, subs |-> {}],                  \* associate (row => sinx(2:3)) / x = row(1)   -- an array section is no call
   [n |-> "assoc_funcsel", slots |-> 1, subs |-> {}],                  \* associate (z => E) / x = z + z              -- calls inside the selector only
   [n |-> "extern", slots |-> 0, subs |-> {"extf"}],                   \* real :: extf / external extf / x = extf(1.0) -- pre-F90 declaration of an external function
+  [n |-> "tb_two", slots |-> 0, subs |-> {"circle%reset", "logger%reset"}],   \* call c%reset() / call l%reset(): equally named bindings of two types are two procedures
   [n |-> "shadow_local", slots |-> 1, subs |-> {}],                   \* real :: weights(3) next to a use-associated function weights: x = weights(2) + E is an array element
   [n |-> "shadow_dummy", slots |-> 0, subs |-> {"inner"}],            \* call inner(): the same reference inside an internal procedure, for an array of the host (host association beats use association)
   [n |-> "return", slots |-> 0, subs |-> {}]}            \* no call at all
